@@ -18,6 +18,10 @@ struct Scenario {
   std::vector<std::pair<std::string, mpz_ptr> > pub;      // verifier-side public inputs the statement speaks about
   std::vector<std::pair<std::string, std::function<bool(Ctx &)> > > edits; // statement edits -> false statement (return false: not applicable)
   std::vector<std::function<void()> > cleanup; std::ostringstream desc;
+  std::string ctor_text;                                 // PublishGroup text the verifier-side argument object was built from
+  std::vector<size_t> ctor_lines_in_use;                 // lines of ctor_text the proof depends on
+  std::function<void(const std::string &)> rebuild_verifier; // rebuild the verifier-side object from (mutated) text
+  bool rabin = false;
   Z p, q;                                                // group of the statement (for the reference classification)
   size_t n = 0, kappa = 0;
   ~Scenario() { for (size_t i = cleanup.size(); i-- > 0;) cleanup[i](); }
@@ -89,7 +93,7 @@ static inline ScenarioP sc_key_interactive(Ctx &ctx, bool publiccoin) {
     s->prove = [pr](std::istream &in, std::ostream &out) { pr->KeyGenerationProtocol_ProveKey_interactive(in, out); };
     s->verify = [ve, key](std::istream &in, std::ostream &out) { return ve->KeyGenerationProtocol_VerifyKey_interactive(key, in, out); };
   }
-  s->pub.push_back({"key.h_i", key}); group_pubs(*s, ve);
+  s->pub.push_back({"key.h_i", key}); s->pub.push_back({"group.p", ve->p}); s->pub.push_back({"group.q", ve->q}); s->pub.push_back({"group.g", ve->g}); // (the common key h is not part of this statement)
   s->edits.push_back({"key-times-g^delta", [key, ve](Ctx &c) { Z d = zrand_below(c, Z(ve->q) - 2) + 1; Z k = (Z(key) * zpowm(Z(ve->g), d, Z(ve->p))) % Z(ve->p); mpz_set(key, k.get_mpz_t()); return true; }});
   return s;
 }
@@ -152,10 +156,12 @@ static inline ScenarioP sc_decryption(Ctx &ctx, bool wrapper) {
   VTMF_Card *c = s->own(new VTMF_Card()); { VTMF_CardSecret tmp; T->TMCG_CreatePrivateCard(*c, tmp, pr, ctx.c.index(16)); }
   if (wrapper) {
     s->prove = [=](std::istream &in, std::ostream &out) { T->TMCG_ProveCardSecret(*c, pr, in, out); };
-    s->verify = [=](std::istream &in, std::ostream &out) { T->TMCG_SelfCardSecret(*c, ve); return T->TMCG_VerifyCardSecret(*c, ve, in, out); };
+    T->TMCG_SelfCardSecret(*c, ve); // precondition of the opening procedure: own share computed on the checked card
+    s->verify = [=](std::istream &in, std::ostream &out) { return T->TMCG_VerifyCardSecret(*c, ve, in, out); };
   } else {
     s->prove = [=](std::istream &, std::ostream &out) { pr->VerifiableDecryptionProtocol_Prove(c->c_1, out); };
-    s->verify = [=](std::istream &in, std::ostream &) { ve->VerifiableDecryptionProtocol_Verify_Initialize(c->c_1); return ve->VerifiableDecryptionProtocol_Verify_Update(c->c_1, in); };
+    ve->VerifiableDecryptionProtocol_Verify_Initialize(c->c_1);
+    s->verify = [=](std::istream &in, std::ostream &) { return ve->VerifiableDecryptionProtocol_Verify_Update(c->c_1, in); };
   }
   s->pub = {{"c.c_1", c->c_1}}; group_pubs(*s, ve);
   return s;
@@ -201,16 +207,20 @@ static inline ScenarioP sc_stack_groth(Ctx &ctx, bool interactive) {
   auto s = std::make_shared<Scenario>(); StackWorld W = make_stack(ctx, *s, interactive ? "stack_groth_interactive" : "stack_groth_noninteractive", false, 0, ctx.thorough ? 64 : 12, false); s->interactive = interactive;
   BarnettSmartVTMF_dlog *pv = W.w.pv(), *vv = W.w.vv(); unsigned long le = pick_le(ctx, W.w.g, pv); size_t cap = W.n + (size_t)ctx.c.range(0, 3);
   GrothVSSHE *vp = s->own(new GrothVSSHE(cap, pv->p, pv->q, pv->k, pv->g, pv->h, le, W.w.g.fsize, W.w.g.gsize));
-  std::stringstream pg; vp->PublishGroup(pg); GrothVSSHE *vvs = s->own(new GrothVSSHE(cap, pg, le, W.w.g.fsize, W.w.g.gsize));
+  std::stringstream pg; vp->PublishGroup(pg); s->ctor_text = pg.str();
+  auto holder = std::make_shared<GrothVSSHE *>(nullptr); { std::istringstream in(s->ctor_text); *holder = new GrothVSSHE(cap, in, le, W.w.g.fsize, W.w.g.gsize); }
+  s->cleanup.push_back([holder] { delete *holder; });
+  { unsigned long F = W.w.g.fsize, G = W.w.g.gsize; s->rebuild_verifier = [holder, cap, le, F, G](const std::string &t) { delete *holder; *holder = nullptr; std::istringstream in(t); *holder = new GrothVSSHE(cap, in, le, F, G); }; }
+  for (size_t i = 0; i < 4; i++) s->ctor_lines_in_use.push_back(i); s->ctor_lines_in_use.push_back(4); s->ctor_lines_in_use.push_back(5); s->ctor_lines_in_use.push_back(7); for (size_t i = 0; i < W.n; i++) s->ctor_lines_in_use.push_back(8 + i);
+  GrothVSSHE *vvs = *holder; (void)vvs;
   s->desc << " l_e=" << le << " cap=" << cap;
   if (interactive) {
     s->prove = [=](std::istream &in, std::ostream &out) { W.Tp->TMCG_ProveStackEquality_Groth(*W.s, *W.s2, *W.ss, pv, vp, in, out); };
-    s->verify = [=](std::istream &in, std::ostream &out) { return W.Tv->TMCG_VerifyStackEquality_Groth(*W.s, *W.s2, vv, vvs, in, out); };
+    s->verify = [=](std::istream &in, std::ostream &out) { return W.Tv->TMCG_VerifyStackEquality_Groth(*W.s, *W.s2, vv, *holder, in, out); };
   } else {
     s->prove = [=](std::istream &, std::ostream &out) { W.Tp->TMCG_ProveStackEquality_Groth_noninteractive(*W.s, *W.s2, *W.ss, pv, vp, out); };
-    s->verify = [=](std::istream &in, std::ostream &) { return W.Tv->TMCG_VerifyStackEquality_Groth_noninteractive(*W.s, *W.s2, vv, vvs, in); };
+    s->verify = [=](std::istream &in, std::ostream &) { return W.Tv->TMCG_VerifyStackEquality_Groth_noninteractive(*W.s, *W.s2, vv, *holder, in); };
   }
-  for (size_t i = 0; i < vvs->com->g.size() && i < W.n; i++) s->pub.push_back({"com.g[" + std::to_string(i) + "]", vvs->com->g[i]});
   stack_edits(*s, W);
   return s;
 }
@@ -218,13 +228,17 @@ static inline ScenarioP sc_stack_hoogh(Ctx &ctx, bool interactive) {
   auto s = std::make_shared<Scenario>(); StackWorld W = make_stack(ctx, *s, interactive ? "stack_hoogh_interactive" : "stack_hoogh_noninteractive", true, 0, ctx.thorough ? 48 : 10, false); s->interactive = interactive;
   BarnettSmartVTMF_dlog *pv = W.w.pv(), *vv = W.w.vv();
   HooghSchoenmakersSkoricVillegasVRHE *hp = s->own(new HooghSchoenmakersSkoricVillegasVRHE(pv->p, pv->q, pv->g, pv->h, W.w.g.fsize, W.w.g.gsize));
-  std::stringstream pg; hp->PublishGroup(pg); HooghSchoenmakersSkoricVillegasVRHE *hv = s->own(new HooghSchoenmakersSkoricVillegasVRHE(pg, W.w.g.fsize, W.w.g.gsize));
+  std::stringstream pg; hp->PublishGroup(pg); s->ctor_text = pg.str();
+  auto holder = std::make_shared<HooghSchoenmakersSkoricVillegasVRHE *>(nullptr); { std::istringstream in(s->ctor_text); *holder = new HooghSchoenmakersSkoricVillegasVRHE(in, W.w.g.fsize, W.w.g.gsize); }
+  s->cleanup.push_back([holder] { delete *holder; });
+  { unsigned long F = W.w.g.fsize, G = W.w.g.gsize; s->rebuild_verifier = [holder, F, G](const std::string &t) { delete *holder; *holder = nullptr; std::istringstream in(t); *holder = new HooghSchoenmakersSkoricVillegasVRHE(in, F, G); }; }
+  for (size_t i = 0; i < 4; i++) s->ctor_lines_in_use.push_back(i);
   if (interactive) {
     s->prove = [=](std::istream &in, std::ostream &out) { W.Tp->TMCG_ProveStackEquality_Hoogh(*W.s, *W.s2, *W.ss, pv, hp, in, out); };
-    s->verify = [=](std::istream &in, std::ostream &out) { return W.Tv->TMCG_VerifyStackEquality_Hoogh(*W.s, *W.s2, vv, hv, in, out); };
+    s->verify = [=](std::istream &in, std::ostream &out) { return W.Tv->TMCG_VerifyStackEquality_Hoogh(*W.s, *W.s2, vv, *holder, in, out); };
   } else {
     s->prove = [=](std::istream &, std::ostream &out) { W.Tp->TMCG_ProveStackEquality_Hoogh_noninteractive(*W.s, *W.s2, *W.ss, pv, hp, out); };
-    s->verify = [=](std::istream &in, std::ostream &) { return W.Tv->TMCG_VerifyStackEquality_Hoogh_noninteractive(*W.s, *W.s2, vv, hv, in); };
+    s->verify = [=](std::istream &in, std::ostream &) { return W.Tv->TMCG_VerifyStackEquality_Hoogh_noninteractive(*W.s, *W.s2, vv, *holder, in); };
   }
   stack_edits(*s, W);
   // a non-cyclic permutation presented as a rotation: re-mix with a permutation secret (statement false for the rotation argument)
@@ -294,7 +308,7 @@ static inline ScenarioP sc_rabin_maskcard(Ctx &ctx) {
   Tp->TMCG_CreateOpenCard(*c, P->ring, ctx.c.index((size_t)1 << w)); Tp->TMCG_CreateCardSecret(*cs, P->ring, ctx.c.index(k)); Tp->TMCG_MaskCard(*c, *cc, *cs, P->ring);
   s->prove = [=](std::istream &in, std::ostream &out) { Tp->TMCG_ProveMaskCard(*c, *cc, *cs, P->ring, in, out); };
   s->verify = [=](std::istream &in, std::ostream &out) { return Tv->TMCG_VerifyMaskCard(*c, *cc, P->ring, in, out); };
-  s->p = Z(P->ring.keys[0].m); s->q = s->p;
+  s->p = Z(P->ring.keys[0].m); s->q = s->p; s->rabin = true;
   return s;
 }
 static inline ScenarioP sc_rabin_cardsecret(Ctx &ctx) {
@@ -305,7 +319,7 @@ static inline ScenarioP sc_rabin_cardsecret(Ctx &ctx) {
   Tp->TMCG_CreatePrivateCard(*c, *cs, P->ring, 1, ctx.c.index((size_t)1 << w));
   s->prove = [=](std::istream &in, std::ostream &out) { Tp->TMCG_ProveCardSecret(*c, *P->sk[1], 1, in, out); };
   s->verify = [=](std::istream &in, std::ostream &out) { return Tv->TMCG_VerifyCardSecret(*c, *vcs, P->ring.keys[1], 1, in, out); };
-  s->p = Z(P->ring.keys[1].m); s->q = s->p;
+  s->p = Z(P->ring.keys[1].m); s->q = s->p; s->rabin = true;
   return s;
 }
 static inline ScenarioP sc_rabin_stack(Ctx &ctx, bool cyclic) {
@@ -317,7 +331,7 @@ static inline ScenarioP sc_rabin_stack(Ctx &ctx, bool cyclic) {
   size_t idx = ctx.c.index(k); Tp->TMCG_CreateStackSecret(*ss, cyclic, P->ring, idx, n); Tp->TMCG_MixStack(*st, *st2, *ss, P->ring);
   s->prove = [=](std::istream &in, std::ostream &out) { Tp->TMCG_ProveStackEquality(*st, *st2, *ss, cyclic, P->ring, idx, in, out); };
   s->verify = [=](std::istream &in, std::ostream &out) { return Tv->TMCG_VerifyStackEquality(*st, *st2, cyclic, P->ring, in, out); };
-  s->p = Z(P->ring.keys[0].m); s->q = s->p;
+  s->p = Z(P->ring.keys[0].m); s->q = s->p; s->rabin = true;
   return s;
 }
 
